@@ -156,45 +156,56 @@ def run_seq(ctx, rep, spec, sib, ops, start=None, source="plotgen"):
 
 
 def gen_ops(rng, spec, sib, kinds):
+    """operation arguments for a sequence of kinds, chosen so that the pure sequence is defined
+    (a combine always has something to add, the mesh is only truncated when no combine follows)"""
     names = list(dedup_names(spec["fields"]))
     snames = list(dedup_names(sib["fields"]))
     nlev = len(spec["levels"])
     ops = []
     fields = list(names)
-    have_cooked = 0
-    limited = False
+    cooked = 0
     for n, k in enumerate(kinds):
+        later = kinds[n + 1:]
+        combine_later = any(x.startswith("combine") for x in later)
+        nxt = later[0] if later else ""
         if k == "colander":
             sel = rng.choice([["all"], fields[::-1], fields[:1] + ["nope"], rng.sample(fields, max(1, len(fields) - 1))])
-            lim = rng.choice([None, None, nlev - 1, 0]) if not limited else None
-            if lim is not None and lim < nlev - 1:
-                limited = True
+            lim = None if combine_later else rng.choice([None, nlev - 1, 0])
+            if nxt.startswith("combine-ancestor") and len(fields) > 1:
+                sel = fields[-1:]            # leave something for the ancestor to add back
             ops.append({"op": "colander", "vars": sel, "limit": lim})
             fields = list(fields) if sel == ["all"] else [v for v in sel if v in fields]
         elif k == "chef":
-            have_cooked += 1
-            kept = rng.choice([[], fields[-1:], list(fields)])
-            nm = f"cooked{have_cooked}"
+            cooked += 1
+            kept = rng.choice([[], fields[-1:], list(fields), list(fields)[::-1]])
+            if nxt.startswith("combine-ancestor"):
+                kept = fields[-1:]
+            nm = f"cooked{cooked}"
             ops.append({"op": "chef", "name": nm, "kept": kept, "serial": rng.random() < 0.5})
             fields = [f for f in kept] + [nm]
-        elif k == "combine":
-            choice = rng.choice(["sibling", "ancestor", "ancestor-first"])
+        else:
+            choice = k[len("combine-"):]
+            if choice == "sibling" and all(x in fields for x in snames):
+                choice = "ancestor"
+            if choice in ("ancestor", "ancestor-first") and all(x in fields for x in names) and choice == "ancestor":
+                choice = "ancestor-first" if any(x not in names for x in fields) else "sibling"
+            if choice == "ancestor-first" and all(x in names for x in fields):
+                choice = "ancestor" if any(x not in fields for x in names) else "sibling"
             if choice == "sibling":
-                ops.append({"op": "combine", "with": "sibling", "first": True, "v1": None, "v2": rng.choice([None, snames[:1]])})
-                fields = fields + [s for s in (snames if ops[-1]["v2"] is None else snames[:1]) if s not in fields]
+                v2 = rng.choice([None, [x for x in snames if x not in fields][:1]])
+                ops.append({"op": "combine", "with": "sibling", "first": True, "v1": None, "v2": v2})
+                fields = fields + [x for x in (snames if v2 is None else v2) if x not in fields]
             elif choice == "ancestor":
-                # current result first, then whatever the original adds
                 ops.append({"op": "combine", "with": "orig", "first": True, "v1": None, "v2": None})
-                fields = fields + [s for s in names if s not in fields]
+                fields = fields + [x for x in names if x not in fields]
             else:
-                # the original first, then what the current result adds (cook and combine back)
                 ops.append({"op": "combine", "with": "orig", "first": False, "v1": None, "v2": None})
-                fields = names + [s for s in fields if s not in names]
+                fields = names + [x for x in fields if x not in names]
     return ops
 
 
 def run(ctx, rep, model=True):
-    kinds = ["colander", "combine", "chef"]
+    kinds = ["colander", "combine-sibling", "combine-ancestor", "combine-ancestor-first", "chef"]
     seqs = [[k] for k in kinds] + [list(p) for p in itertools.product(kinds, repeat=2)]
     extra = 6 if ctx.quick else 80
     for _ in range(extra):
@@ -202,8 +213,12 @@ def run(ctx, rep, model=True):
     # the two corollaries named by the property
     seqs.append("cook-combine-back"); seqs.append("strain-all")
     for i, ks in enumerate(seqs):
-        spec = plotgen.random_spec(ctx.rng, ndims=3, nlev=[2, 1, 3][i % 3], nf=[2, 3][i % 2], data="smallint", B=2,
-                                   layout=["scatter", "perm", "files"][i % 3], profile="plain")
+        for _ in range(20):
+            spec = plotgen.random_spec(ctx.rng, ndims=3, nlev=[2, 1, 3][i % 3], nf=[2, 3][i % 2], data="smallint", B=2,
+                                       layout=["perm", "scatter", "perm", "files"][i % 4], profile="plain")
+            # pipelines are only telling on layouts that are not in box order inside a file
+            if i % 4 == 3 or "nonmonotone" in plotgen.describe(spec):
+                break
         sib = copy.deepcopy(spec)
         sib["fields"] = ["sib_a", "sib_b"]; sib["data"] = {"mode": "smallint", "seed": ctx.rng.randrange(1 << 30)}
         sib["layout"] = plotgen.random_layout(ctx.rng, sib["levels"], "scatter")
